@@ -7,6 +7,11 @@ Extraction Language OCaml.
 
 Definition m_trace (q : bool) (db : tdb) (tid : nat) (ops : list op) : list (pyval * option exc) :=
   trace tmpl_gen pick_width_gen q db tid (default_obj tmpl_gen pick_width_gen q db tid) ops.
+Definition m_xtrace (q : bool) (db : tdb) (tid : nat) (ops : list xop) : list (pyval * option exc) :=
+  xtrace tmpl_gen pick_width_gen q db tid (default_obj tmpl_gen pick_width_gen q db tid) ops.
+(* np.array(<value of e>, dt).flatten() of the model, for the sweep of the NumPy laws *)
+Definition m_conv (q : bool) (db : tdb) (dt : dtype) (e : vexpr) : res (list pyval) :=
+  match eval tmpl_gen pick_width_gen q db e with Ok x => np_array dt x | Raise ex => Raise ex end.
 Definition m_default (q : bool) (db : tdb) (tid : nat) : pyval := default_obj tmpl_gen pick_width_gen q db tid.
 (* to_builtin, then update_from_builtin on a fresh default object *)
 Definition m_roundtrip (q : bool) (db : tdb) (tid : nat) (fuel : nat) (o : pyval) : option (pyval * pyval * option exc) :=
@@ -23,5 +28,5 @@ Definition m_trunc (x : N) : Z := f_trunc x.
 Definition m_quirk : bool := arrelem_quirk_gen.
 Definition m_precheck : bool := t_arr_precheck tmpl_gen.
 
-Extraction "model.ml" m_trace m_default m_roundtrip m_wf m_db_ok m_round m_of_z m_trunc m_quirk m_precheck pick_width_gen
+Extraction "model.ml" m_trace m_xtrace m_conv m_default m_roundtrip m_wf m_db_ok m_round m_of_z m_trunc m_quirk m_precheck pick_width_gen
   Z.add Z.mul Z.opp Z.div_eucl Z.ltb Z.eqb N.add N.mul N.div_eucl N.eqb.
